@@ -54,6 +54,7 @@
 #include <deque>
 #include <pthread.h>
 #include <sched.h>
+#include <unistd.h>
 #include <string>
 #include <sys/syscall.h>
 #include <time.h>
@@ -498,6 +499,7 @@ void do_connect(Worker &w, const Op &op) {
     do_close(w, cn, op.srv_first);
 }
 
+std::atomic<int> g_delete_attempts{ 0 };   // lets the ticket callback linger until a rotation reaches its delete
 void do_rotate(Worker &w, const Op &op) {
     pthread_mutex_lock(&g_rot_mu); std::string name = new_key_name_locked(); pthread_mutex_unlock(&g_rot_mu);
     Ev le; le.kind = EV_LOAD; le.thread = w.idx; le.key = name;
@@ -510,7 +512,7 @@ void do_rotate(Worker &w, const Op &op) {
     pthread_mutex_unlock(&g_rot_mu);
     if (victim.empty()) return;
     Ev de; de.kind = EV_DELETE; de.thread = w.idx; de.key = victim;
-    de.s = tick(); c20_maybe_yield(); de.rc = delete_ticket_key(victim); de.e = tick();
+    de.s = tick(); c20_maybe_yield(); g_delete_attempts.fetch_add(1, std::memory_order_relaxed); de.rc = delete_ticket_key(victim); de.e = tick();
     w.log.push_back(de);
     if (de.rc < 0) { pthread_mutex_lock(&g_rot_mu); g_keys_live.push_front(victim); pthread_mutex_unlock(&g_rot_mu); }
 }
@@ -854,7 +856,8 @@ char task_state(int tid) {
 struct Program { int N = 2; int nseeds = 2; uint32_t yp = 0, sp = 0, up = 0; int nslots = 1; std::vector<std::vector<Op>> ops; uint64_t seed = 0;
                  int crl_theme = 0;                       // 0 = no CRL-cache operations beyond the occasional replacement; 1 = only revoking versions; 2 = any version; 3 = only harmless versions
                  int crl_init[2] = { -1, -1 };            // CRL version of ca_rsa / ca_ec in the cache when the threads start (-1 = none)
-                 bool crl_init_auth[2] = { false, false }; };
+                 bool crl_init_auth[2] = { false, false };
+                 int tcb = 0; };                          // session-ticket callback on the shared server keys: 0 none, 1 plain, 2 yields while the library has dropped its lock around it
 
 // version of issuer 'is' for a program of the given theme
 int pick_crl_version(vf::Tape &t, int theme, int is) {
@@ -924,6 +927,7 @@ Program generate(vf::Tape &t) {
             p.ops[(size_t) i].insert(p.ops[(size_t) i].begin() + (long) pos, o);
         }
     }
+    p.tcb = (int) t.below(3);
     return p;
 }
 std::string describe(const Program &p) {
@@ -1064,12 +1068,26 @@ void run_once(const Program &p, int run_idx, uint64_t yield_seed, const std::str
     analyse(ws, p.N, desc, st, keys_at_start, p.crl_init);
 }
 
+// The application's session-ticket callback (matrixSslSetSessionTicketCallback): the library calls it for every ticket it is
+// about to open, with its ticket-key lock released.  It accepts keys the library already holds and knows no others, so the
+// handshake outcomes are the same as without a callback; in mode 2 it lingers so that key rotation can run inside the window.
+std::atomic<int> g_tcb_mode{ 0 };
+int32 ticket_cb(void *, unsigned char[16], short found) {
+    if (g_tcb_mode.load(std::memory_order_relaxed) == 2) {   // wait (<= 2 ms) for a key deletion to start on another thread, then let it finish
+        c20_maybe_yield(); int a = g_delete_attempts.load(std::memory_order_relaxed);
+        for (int i = 0; i < 40; i++) { if (g_delete_attempts.load(std::memory_order_relaxed) != a) { usleep(150); break; } usleep(50); }
+        c20_maybe_yield(); }
+    return found ? PS_SUCCESS : PS_FAILURE;
+}
 void prop(vf::Tape &t, vf::Ctx &c) {
     if (g_wedged) throw vf::Discard{};
     g_case_start_ms.store(now_ms(), std::memory_order_relaxed);
     struct CaseEnd { ~CaseEnd() { g_case_start_ms.store(0, std::memory_order_relaxed); } } case_end;
     Program p = generate(t);
     std::string desc = describe(p);
+    desc += fmt(" ticket-callback=%d", p.tcb);
+    g_tcb_mode.store(p.tcb, std::memory_order_relaxed); matrixSslSetSessionTicketCallback(g_srv, p.tcb ? ticket_cb : NULL);   // no thread is running yet
+    c.count(fmt("ticket-callback=%d", p.tcb));
     if (c.verbose) fprintf(stderr, "case: %s\n", desc.c_str());
     g_slots.clear(); g_slots.resize((size_t) p.nslots);   // (slots are empty between runs)
     // a replay of a failing tape keeps trying further yield seeds: the schedule is not part of the tape
